@@ -467,6 +467,49 @@ def analyse(steps, trailing_notes=()):
                     V.append(Violation("C12", "cursor", "a read from a buffer %s bits too short left the cursor outside the valid range: %s" % (a[4], res[0]), st))
                 if t[2] == "1" and int(a[4]) > 0 and int(a[0]) != 2 and False:
                     pass
+        if op == "bbs":
+            # byte-level scripts: the reads after `end` are judged against the datagram image the real code printed itself - a run of bits
+            # read into an exact-size array must be those bits with nothing but zeros above them, a single bit / a 32-bit word likewise
+            stats["unit"] = stats.get("unit", 0) + 1
+            res = [e for e in st.events if e.startswith("bbs")]
+            if res:
+                outs = res[0].split()[1:]
+                toks = [t for t in a[1:]]
+                img = None
+                cursor = 0
+                for tok, o in zip(toks, outs):
+                    if tok == "end" and o.startswith("end:1:"):
+                        img = bytes.fromhex(o.split(":")[3]) if len(o.split(":")) > 3 else b""
+                        cursor = 0
+                        continue
+                    if img is None or tok.startswith("cp:"):
+                        continue
+                    f, r = tok.split(":"), o.split(":")
+                    if len(r) != 3 or r[0] != "1":
+                        if len(r) == 3 and r[0] == "0" and f[0] in ("rb", "rs", "ry", "ru", "ri"):
+                            if int(r[2]) != cursor:
+                                V.append(Violation("C12", "readback", "a failed %s moved the cursor from %d to %s" % (tok, cursor, r[2]), st))
+                        if len(r) == 3:
+                            cursor = int(r[2])
+                        continue
+                    n = {"rb": 1, "ru": 32}.get(f[0], None)
+                    if f[0] == "rs":
+                        n = int(f[1])
+                    elif f[0] == "ry":
+                        n = 8 * int(f[1])
+                    if n is not None:
+                        bits_ = [(img[(cursor + i) // 8] >> ((cursor + i) % 8)) & 1 if (cursor + i) // 8 < len(img) else 0 for i in range(n)]
+                        if f[0] in ("rs", "ry"):
+                            want = "%016x" % fnv64(pack_bits(bits_))
+                            if r[1] != want:
+                                V.append(Violation("C12", "readback", "%s at bit %d of the datagram returned an array that is not those %d bits (with zeros above them)" % (tok, cursor, n), st))
+                        else:
+                            want = sum(b << i for i, b in enumerate(bits_))
+                            if int(r[1]) != want:
+                                V.append(Violation("C12", "readback", "%s at bit %d of the datagram returned %s, the bits there are %d" % (tok, cursor, r[1], want), st))
+                        if int(r[2]) != cursor + n:
+                            V.append(Violation("C12", "readback", "%s moved the cursor from %d to %s" % (tok, cursor, r[2]), st))
+                    cursor = int(r[2])
         if op == "bbbits":
             stats["unit"] = stats.get("unit", 0) + 1
             res = [e for e in st.events if e.startswith("bb")]
